@@ -3,7 +3,8 @@
 EXTENDS Integers, Sequences, TLC, Json
 CONSTANTS L
 VARIABLES hist
-Alpha == {"bindw", "bindr", "bindl", "bindm", "tl", "tm", "cw", "cr", "wait", "unbindl", "unbindm", "close"}
+\* "failw": from now on the transport-side RTCP writer fails every write the interceptor originates (fault sequence)
+Alpha == {"bindw", "bindr", "bindl", "bindm", "tl", "tm", "cw", "cr", "wait", "unbindl", "unbindm", "close", "failw"}
 Init == hist = <<>>
 Next == Len(hist) < L /\ \E a \in Alpha : hist' = Append(hist, a)
 Leaf == IF Len(hist) = L THEN PrintT(<<"TRACE", ToJson(hist)>>) /\ FALSE ELSE TRUE
